@@ -143,7 +143,9 @@ def _zones() -> list:
     """Time zones a record timestamp may be expressed in (the instant is what goes on the wire)."""
     global _ZONES
     if _ZONES is None:
-        _ZONES = [datetime.timezone.utc, datetime.timezone(datetime.timedelta(hours=5, minutes=30)), datetime.timezone(datetime.timedelta(hours=-11))]
+        _ZONES = [datetime.timezone.utc, datetime.timezone(datetime.timedelta(hours=5, minutes=30)), datetime.timezone(datetime.timedelta(hours=-11)),
+                  datetime.timezone(datetime.timedelta(hours=1, milliseconds=500)), datetime.timezone(-datetime.timedelta(milliseconds=1)),
+                  datetime.timezone(datetime.timedelta(minutes=-44, seconds=-30, microseconds=-250))]  # sub-second offsets (the last one sub-millisecond: records carry microseconds)
         try:
             import zoneinfo
 
